@@ -11,7 +11,7 @@ out = tempfile.mktemp(suffix=".xml", dir="/tmp")
 env = dict(os.environ)
 env.pop("DASK_EXPR_VERIF", None)
 cmd = ["/venv/bin/python", "-m", "pytest", "-q", "-p", "no:cacheprovider", "--timeout=900",
-       "--continue-on-collection-errors", "-n", "14", f"--junitxml={out}"]
+       "--continue-on-collection-errors", "-n", os.environ.get("BASELINE_N", "14"), f"--junitxml={out}"]
 p = subprocess.run(cmd, cwd=repo, env=env, capture_output=True, text=True)
 print(p.stdout.strip().splitlines()[-1] if p.stdout.strip() else p.stderr[-500:])
 passed = set()
